@@ -129,10 +129,15 @@ class HistWorld(World):
         kind = kinds[int(rng.integers(len(kinds)))]
         params = simlib.gen_model_params(kind, rng, dim)
         folder0 = ["", "A"][int(rng.integers(2))]
-        return {
+        cfg = {
             "type": st, "dim": dim, "meshes": meshes, "kind": kind, "params": params, "folder0": folder0,
             "nops": int(rng.integers(10, 31 if tier == "quick" else 46)), "faults": bool(faults),
         }
+        if st in ("Elastic", "Thermal") and rng.random() < 0.2:
+            # nodes that no element uses, another number of them on every mesh of the history (they are part of what a
+            # saved mesh must give back, and what a simulation knows about them must follow Set_Iter onto another mesh)
+            cfg["orphans"] = [int(rng.integers(0, 4)) for _ in meshes]
+        return cfg
 
     # ------------------------------------------------------------------ build
     def __init__(self, cfg, ctx):
@@ -165,13 +170,23 @@ class HistWorld(World):
             if self.type == "Beam":
                 self._new_frame(folder)
             else:
-                self.meshes = [meshlib.build(r) for r in self.raws]
+                self.meshes = [self._build(i) for i in range(len(self.raws))]
                 self.mesh_i = 0
                 self.model = self._make_model(self.meshes[0])
                 self.sim = simlib.make_sim(self.type, self.meshes[0], self.model, folder=folder)
         self.folder = cfg["folder0"]
         self.mesh_list = [0]  # world's mesh index per entry of the simulation's mesh list
         self._apply_load(0.0)
+
+    def _build(self, i):
+        """A brand-new mesh object number i of the configuration (with its unused nodes, if the configuration has any)."""
+        raw = self.raws[i]
+        k = (self.cfg.get("orphans") or [0] * len(self.raws))[i]
+        if not k:
+            return meshlib.build(raw)
+        z = float(raw.coord[:, 2].max())
+        self.ctx.probe("mesh_with_orphan_nodes")
+        return meshlib.build(raw, coord=np.vstack([raw.coord, [[10.0 + j, 10.0, z] for j in range(k)]]))
 
     def _new_frame(self, folder):
         from .fresh_beam import make_frame_sim
@@ -467,7 +482,7 @@ class HistWorld(World):
                 return "skip"
             with ctx.sut():
                 # a distinct object per assignment: the history must keep them apart
-                m = meshlib.build(self.raws[op["mesh"]])
+                m = self._build(op["mesh"])
                 sim.mesh = m
             self.mesh_i = op["mesh"]
             self.mesh_list.append(op["mesh"])
@@ -583,7 +598,7 @@ class HistWorld(World):
             if self.type == "Beam":
                 self._new_frame("")
             else:
-                self.meshes = [meshlib.build(r) for r in self.raws]
+                self.meshes = [self._build(i) for i in range(len(self.raws))]
                 self.mesh_i = 0
                 self.model = self._make_model(self.meshes[0])
                 self.sim = simlib.make_sim(self.type, self.meshes[0], self.model, folder="")
@@ -757,7 +772,7 @@ class HistWorld(World):
         self.ctx.checked()
         with self.ctx.sut():
             md = mesh_digest(s2.mesh)
-            ref = mesh_digest(meshlib.build(self.raws[rec["mesh_i"]]))
+            ref = mesh_digest(self._build(rec["mesh_i"]))
         if md != ref:
             raise Violation("loaded-mesh-differs", "mesh (connectivity / coordinates / tags) of the loaded simulation differs from the saved one")
         if not deep_equal(self._live_extra(), rec["extra"]):
